@@ -394,6 +394,38 @@ def check(rep, F, tier, replay=None):
                 if not ok_:
                     rep.violation("R-break", "%s|%s" % (F.key(sub_), to_.rsplit("::", 1)[-1]), "%s opens a container with raw.%s() (%s) and never consumes the Break of its indefinite form: nested in a byte-preserving value, the enclosing reader captures the bytes without the closing 0xff and re-emits different bytes / another hash" % (F.key(sub_), to_.rsplit("::", 1)[-1], facts.loc_str(fn_["bbs"][c_.bb]["t"][0], fn_)), {})
     rep.floor("container opens inside byte-capturing reader closures", 25, n_rb)
+    # (6d) RAW-written: a witness-set field whose original bytes are kept is written in every state
+    import common as _common
+    from e2_all import Inventory as _Inv, short_ty as _short
+    rep.rule("RAW-written", "in every presence state of the byte-preserving witness-set writer in which the original bytes of field X are kept (and the typed field is present), key(X) is written: an untouched field never disappears on re-serialisation (E2 states)")
+    names_ = {v: int(k) for k, v in _common.load_table("conway_cddl.json")["record_maps"]["TransactionWitnessSet"].items()}
+    inv_ = _Inv(F)
+    wf_ = [fid for T, fid in inv_.ser.items() if _short(T) == "FixedTxWitnessesSet"]
+    if len(wf_) != 1:
+        rep.lost("FixedTxWitnessesSet writer not found")
+    else:
+        r_ = inv_.result(wf_[0])
+        if r_["status"] != "ok":
+            rep.lost("FixedTxWitnessesSet writer not derivable by E2 (%s)" % r_.get("why"))
+        else:
+            n_states = 0
+            reported = set()
+            for c_ in r_["containers"]:
+                if c_["kind"] != "map" or "true_atoms" not in c_:
+                    continue
+                n_states += 1
+                ta = set(c_["true_atoms"])
+                for x_, k_ in names_.items():
+                    typed = "plutus_scripts" if x_.startswith("plutus_scripts_v") else x_
+                    # atoms are discovered lazily: a raw part the writer never consulted in this state may be present
+                    raw_false = [a for a in c_["false_atoms"] if a.startswith("some:") and a.endswith("raw_parts.%s" % x_)]
+                    typed_atom = [a for a in ta if a.startswith("some:") and a.endswith("tx_witnesses_set.%s" % typed)]
+                    if not raw_false and typed_atom:
+                        rep.inst("RAW-written")
+                        if k_ not in c_["keys"] and x_ not in reported:
+                            reported.add(x_)
+                            rep.violation("RAW-written", "FixedTxWitnessesSet|%s" % x_, "the byte-preserving witness-set writer keeps the original bytes of %s but does not write key %d in the state %s: a transaction whose witness set contains e.g. an empty %s field (`%02x 80`) loses the field when re-serialised" % (x_, k_, sorted(a for a in ta if "raw_parts" not in a)[:4], x_, k_), {})
+            rep.floor("presence states of the byte-preserving witness-set writer", 40, n_states)
     # (7) PlutusData co-update + writer
     rep.rule("PD-coupdate", "every function that stores PlutusData.datum also stores original_bytes (so stale bytes can never describe a different datum)")
     npd = 0
